@@ -138,7 +138,7 @@ func runC09(c *Ctx) {
 			if !okConst {
 				c.undecided("flag-transitions", relName(helper)+"#result", helper.Pos(), "the enable helper returns non-constant booleans")
 			} else {
-				c.checkTable("flag-transitions", relName(helper)+"#result", helper.Pos(), trueF, []string{"isVerified", "isnil(verifyErr)"}, nil,
+				c.checkTable("flag-transitions", relName(helper)+"#result", helper.Pos(), trueF, []string{"isVerified", "isnil(verifyErr)"}, selAtomsOf(trueF),
 					"returns true iff !isVerified || Verify()==nil",
 					func(e env) bool { return !e.B["isVerified"] || e.B["isnil(verifyErr)"] })
 			}
@@ -358,7 +358,7 @@ func c09EnableResult(c *Ctx, k *core, helper *ssa.Function) {
 						return ""
 					})}
 					g := pb.pathCond(f.Blocks[0], al.Block())
-					r := compareTable(g, []string{"isVerified", "isnil(verifyErr)"}, nil, func(en env) bool { return !en.B["isVerified"] || en.B["isnil(verifyErr)"] })
+					r := compareTable(g, []string{"isVerified", "isnil(verifyErr)"}, selAtomsOf(g), func(en env) bool { return !en.B["isVerified"] || en.B["isnil(verifyErr)"] })
 					if len(r.Unknown) > 0 || r.Mismatch != "" {
 						okp = false
 					}
